@@ -522,6 +522,59 @@ theorem views_over_parts_never_alias (e e' : MExpr) (rows columns : Nat) (rp cp 
   exact grid_index_inj (cp.length + 1) kr kc kr' kc' (by have := hl.2.2.2; omega)
     (by have := hl'.2.2.2; omega) this.1
 
+/-- **Write, then read, through one view.**  Over source data of the right length, writing `x`
+    at an index inside the view and reading any index of the same view gives `x` at that very
+    index and the old element everywhere else; a write at an index outside the view changes
+    nothing. -/
+theorem view_write_then_read {α : Type} (e : MExpr) (hle : e.LeavesOk) (data : List α)
+    (hd : data.length = e.dataLen) (i j i' j' : Nat) (x : α) :
+    e.read (e.write data i j x) i' j' =
+      if (i < e.size.1 ∧ j < e.size.2) ∧ i = i' ∧ j = j' then some x else e.read data i' j' := by
+  simp only [MExpr.read, MExpr.write]
+  cases hc : e.cell i j with
+  | none =>
+    have hout : ¬ (i < e.size.1 ∧ j < e.size.2) := by
+      intro hin
+      have := e.cell_some i j hin
+      rw [hc] at this; simp at this
+    simp [hout]
+  | some o =>
+    have hin : i < e.size.1 ∧ j < e.size.2 := by
+      by_contra hn
+      rw [e.cell_none i j hn] at hc; simp at hc
+    have ho : o < data.length := by rw [hd]; exact e.cell_lt hle i j o hc
+    by_cases heq : i = i' ∧ j = j'
+    · obtain ⟨rfl, rfl⟩ := heq
+      simp [hc, hin, ho]
+    · rw [if_neg (fun h => heq h.2)]
+      cases hc' : e.cell i' j' with
+      | none => rfl
+      | some o' =>
+        have hne : o ≠ o' := by
+          intro h; subst h
+          exact heq (e.cell_injective hle i j i' j' o hc hc')
+        simp [List.getElem?_set_ne hne]
+
+/-- **A write through a view over one part is invisible through every view over another part.** -/
+theorem part_view_write_frame {α : Type} (e e' : MExpr) (rows columns : Nat) (rp cp : List Nat)
+    (kr kc kr' kc' : Nat)
+    (hb : e.base = .part rows columns rp cp kr kc) (hb' : e'.base = .part rows columns rp cp kr' kc')
+    (hle : e.LeavesOk) (hle' : e'.LeavesOk) (hne : ¬ (kr = kr' ∧ kc = kc'))
+    (data : List α) (i j i' j' : Nat) (x : α) :
+    e'.read (e.write data i j x) i' j' = e'.read data i' j' := by
+  simp only [MExpr.read, MExpr.write]
+  cases hc : e.cell i j with
+  | none => rfl
+  | some o =>
+    cases hc' : e'.cell i' j' with
+    | none => rfl
+    | some o' =>
+      have hoo : o ≠ o' := by
+        intro h; subst h
+        exact hne (views_over_parts_never_alias e e' rows columns rp cp kr kc kr' kc' hb hb' hle hle'
+          i j i' j' o hc hc')
+      simp [List.getElem?_set_ne hoo]
+
 /-- Non-vacuity: a 4×5 matrix cut after rows 1, 3 and column 2; over the part at grid position
     (1, 1) (rows 1–2, columns 2–4) a reversed range designates cell 13, which no index of a
     view over part (1, 0) does. -/
